@@ -5,6 +5,7 @@ package main
 import (
 	"fmt"
 	"os"
+	"reflect"
 	"strings"
 
 	"github.com/cosmos/cosmos-proto/internal/testprotos/test3"
@@ -14,6 +15,8 @@ import (
 	"github.com/cosmos/cosmos-proto/testpb"
 	"google.golang.org/protobuf/proto"
 	"google.golang.org/protobuf/reflect/protoreflect"
+	"google.golang.org/protobuf/reflect/protoregistry"
+	"google.golang.org/protobuf/runtime/protoimpl"
 )
 
 var corpus = []proto.Message{
@@ -91,10 +94,32 @@ var anyTargetCache []protoreflect.MessageDescriptor
 func anyTargets() []protoreflect.MessageDescriptor {
 	if anyTargetCache == nil {
 		for _, m := range corpus {
-			anyTargetCache = append(anyTargetCache, m.ProtoReflect().Descriptor())
+			anyTargetCache = append(anyTargetCache, infoOf(m).Desc)
 		}
 	}
 	return anyTargetCache
+}
+
+var infoByType map[reflect.Type]*protoimpl.MessageInfo
+
+// infoOf finds the MessageInfo that the generated package registered for the
+// Go type of m, without calling any method of the generated type (so that
+// state the generated code initialises lazily on first use stays untouched).
+func infoOf(m proto.Message) *protoimpl.MessageInfo {
+	if infoByType == nil {
+		infoByType = map[reflect.Type]*protoimpl.MessageInfo{}
+		protoregistry.GlobalTypes.RangeMessages(func(mt protoreflect.MessageType) bool {
+			if mi, ok := mt.(*protoimpl.MessageInfo); ok && mi.GoReflectType != nil {
+				infoByType[mi.GoReflectType] = mi
+			}
+			return true
+		})
+	}
+	mi := infoByType[reflect.TypeOf(m)]
+	if mi == nil {
+		panic(fmt.Sprintf("no registered MessageInfo for %T", m))
+	}
+	return mi
 }
 
 func clip(s string, n int) string {
